@@ -4,8 +4,12 @@ all histories meeting the Channel API preconditions, dispatch / tie guard / grow
 translated from the AST, one EventLoop::loop() iteration, wake-up drain) + correspondence of the extracted
 model with the real EPollPoller / PollPoller / Channel / EventLoop::loop() on real descriptors (ASan/UBSan,
 asserts on) + an independent oracle (the property text) evaluated on the implementation's output + a
-free-running loop scenario (blocks instead of spinning).  Both findings of this property (F-1, F-14) are
-fixed in /repo: there is no known-finding entry, every oracle failure is a VIOLATION."""
+free-running loop scenario (blocks instead of spinning).  F-1 and F-14 are fixed in /repo.  Deviations from the
+property TEXT that the faithful model also has are findings matched by signature: F-23 (key
+removeChannel-assert-address-reuse) and the dispatch from the poll-time snapshot (key stale-dispatch-within-batch:
+a callback that runs although an earlier callback of the SAME iteration disabled / removed its channel or the
+condition it is for; review B-1).  A channel called in an iteration whose poll did not legitimately report it is
+a VIOLATION whatever KNOWN_FINDINGS.txt says."""
 import os, re, sys, glob, itertools, math
 import vlib
 
@@ -19,6 +23,7 @@ ENVOPS = ("open", "wr", "drain", "hc", "pc", "fill", "unfill", "close")
 KEY_F1 = "F1.poll-update-after-remove"
 KEY_F14 = "F14.empty-interest-registered"
 KEY_REUSE = "removeChannel-assert-address-reuse"
+KEY_STALE = "stale-dispatch-within-batch"
 
 
 def gen_defined(name):
@@ -421,9 +426,21 @@ def oracle(case, lines, crash=None, ri=True, events=None):
                 want += [(c, kd) for kd in py_dispatch(r)]
             else:
                 ev.add("tied-owner-gone")
-        if cbs is not None and cbs != want:
-            bad.append((i, "%s: callbacks %s, the reported conditions%s require %s" % (name, cbs, " (in dispatch order)" if ordered else "", want), set()))
+        if cbs is not None and not ordered and cbs != want:
+            bad.append((i, "%s: callbacks %s, the reported conditions require %s" % (name, cbs, want), set()))
         return exp, want
+
+    def entitled(sp, c, kd):
+        """the property text at the moment of the call: the channel exists, is registered, has some interest enabled and
+        -- for the read / write callback -- currently subscribes to that condition"""
+        v = sp.o.get(c)
+        if v is None or not v["reg"] or v["ev"] == 0:
+            return False
+        if kd == "read":
+            return bool(v["ev"] & KREAD)
+        if kd == "write":
+            return bool(v["ev"] & KWRITE)
+        return True
 
     for i, op in enumerate(case.ops):
         w = op.split()
@@ -610,22 +627,69 @@ def oracle(case, lines, crash=None, ri=True, events=None):
                             snapshot.remove(int(w2[1]))
                     ev.add("callback-op")
                     return True
-                for (c, kind) in want_cbs:
-                    v = sp.o.get(c)
-                    if v is None or not v["reg"] or v["ev"] == 0:
-                        if c not in sp.anom:
-                            ev.add("stale-call-within-batch")
-                    for si, sc in enumerate(scripts):
-                        if not active[si] or sc[0] != c or sc[1] != kind:
-                            continue
-                        if sc[2]:
-                            queued.append(si)
-                            continue
-                        if not apply(script_op(sc), c):
-                            rejected = True
+                # The callbacks, in dispatch order.  Property text: a callback runs only when the channel CURRENTLY subscribes
+                # to the condition; a disabled or removed channel is never called.  So, walking the snapshot:
+                #  * a callback the channel is still entitled to when its turn comes MUST be the next one observed;
+                #  * one it is no longer entitled to (an earlier callback of this batch disabled / removed the channel or that
+                #    condition) may be absent -- that is what the text asks for -- and when it is observed all the same it is an
+                #    instance of the finding stale-dispatch-within-batch (the code dispatches from the poll-time snapshot);
+                #  * anything observed beyond that was not reported by this iteration's poll: a hard violation.
+                # (a rejected batch prints no callback list: then the snapshot semantics drive the scripts, nothing is judged)
+                obs = pr["cbs"]
+                pos = 0
+                ran = []
+                mismatch = False
+                for (c, r) in pr["act"]:
+                    if not runs(c, x):
+                        continue
+                    for kind in py_dispatch(r):
+                        ent = entitled(sp, c, kind)
+                        if obs is None:
+                            called = True
+                        elif pos < len(obs) and obs[pos] == (c, kind):
+                            called = True
+                            pos += 1
+                        elif ent:
+                            bad.append((i, "%s: callbacks %s; channel %d (reported with revents %d, subscribed at this moment) must get its %s "
+                                           "callback next (after %s)" % (name, obs, c, r, kind, ran), set()))
+                            mismatch = True
                             break
-                    if rejected:
+                        else:
+                            called = False
+                            ev.add("stale-call-skipped")
+                        if not called:
+                            continue
+                        if not ent and c not in sp.anom:
+                            ev.add("stale-call-within-batch")
+                            if obs is not None and c in exps[x]:
+                                v = sp.o.get(c)
+                                why = ("destroyed" if v is None else "removed from the loop" if not v["reg"] else
+                                       "fully disabled" if v["ev"] == 0 else "no longer subscribed to %s" % kind)
+                                bad.append((i, "%s: the %s callback of channel %d ran although the channel was %s at that moment (by an earlier "
+                                               "callback of the same iteration; it was subscribed and ready when this iteration polled): "
+                                               "EventLoop::loop / Channel::handleEventWithGuard dispatch from the activeChannels_ / revents_ "
+                                               "snapshot of poll time" % (name, kind, c, why), {KEY_STALE}))
+                        ran.append((c, kind))
+                        for si, sc in enumerate(scripts):
+                            if not active[si] or sc[0] != c or sc[1] != kind:
+                                continue
+                            if sc[2]:
+                                queued.append(si)
+                                continue
+                            if not apply(script_op(sc), c):
+                                rejected = True
+                                break
+                        if rejected:
+                            break
+                    if rejected or mismatch:
                         break
+                if mismatch:
+                    return bad
+                if obs is not None and not rejected and pos < len(obs):
+                    bad.append((i, "%s: callbacks %s; %s ran without being reported by this iteration's poll (reported: %s)"
+                                % (name, obs, obs[pos:], pr["act"]), set()))
+                    return bad
+                want_cbs = ran
                 # doPendingFunctors: what was left pending by the previous iteration (queued by a running functor), then what
                 # the callbacks of this batch queued; a QQ functor only queues its second stage, which stays pending
                 run_now = list(pend[x]) + queued
@@ -1306,19 +1370,19 @@ def run(chk, replay=None):
         ev = nontrivial_events(c, li)
         fails = oracle(c, li, crash, ri, events=ev)
         if fails:
-            idx, msg, flags = fails[0]
-            allf = set()
-            for f in fails:
-                allf |= f[2]
-            # a failure counts as known only if EVERY failing observation of the case is an instance
-            # of a listed finding pattern
-            if all(f[2] for f in fails) and all(any(k in known for k in f[2]) for f in fails):
+            # a failing observation is known when it carries finding flags and every one of them is listed; a case counts
+            # as a known-finding instance only if EVERY failing observation of it is known; otherwise the violation is
+            # reported from the observations that are NOT known (so a recorded finding never labels another failure)
+            unknown = [f for f in fails if not (f[2] and all(k in known for k in f[2]))]
+            if not unknown:
                 for f in fails:
                     for k in f[2]:
-                        if k in known:
-                            known_hits.setdefault(k, (c, f[1]))
+                        known_hits.setdefault(k, (c, f[1]))
             else:
-                oracle_bad.append((c, idx, msg, allf))
+                allf = set()
+                for f in unknown:
+                    allf |= f[2]
+                oracle_bad.append((c, unknown[0][0], unknown[0][1], allf))
         d = compare(c, li, lm, crash)
         if d is not None:
             corr_bad.append((c, d[0], d[1]))
@@ -1400,11 +1464,11 @@ def run(chk, replay=None):
             c, idx, msg = lst[0]
 
             def pred(cc, li, lm, crash, flags=flags):
-                fs = oracle(cc, li, crash, ri)
+                fs = [f for f in oracle(cc, li, crash, ri) if not (f[2] and all(k in known for k in f[2]))]
                 return any(tuple(sorted(f[2])) == flags for f in fs)
             small = shrink(c, pred)
             li, lm, crash = run_one(small)
-            fs = oracle(small, li, crash, ri) if li else []
+            fs = [f for f in (oracle(small, li, crash, ri) if li else []) if not (f[2] and all(k in known for k in f[2]))]
             msg2 = fs[0][1] if fs else msg
             if flags and set(flags) <= {KEY_F14, KEY_F1}:
                 tag = "matches the signature of the FIXED finding %s, and the generated facts say its repair is missing from this tree" % ",".join(flags)
